@@ -353,13 +353,79 @@ def transform_family(draw):
         if as_da and draw(st.booleans()):
             call["target_dim"] = tdim  # naming the (only) dimension of a 1-D target explicitly
         calls.append(call)
+    # the same call once more with other target_data of the same name (another time step): calls must not leak into each other
+    first = calls[0]
+    if first.get("target_data") in ("TC", "TO") and draw(st.booleans()):
+        src = arrays[first["target_data"]]
+        arrays["T2"] = {"dims": list(src["dims"]), "values": [v * 0.5 + 1.25 for v in src["values"]], "name": src["name"]}
+        calls.append(dict(first, target_data="T2"))
+        if draw(st.booleans()):
+            calls.reverse()
     grid = {"coords": {"Z": {"center": "ZC", "outer": "ZO"}}, "periodic": False}
     return {"family": "transform", "dims": dims, "coords": coords, "vars": {}, "grid": grid, "arrays": arrays, "calls": calls}
 
 
+@st.composite
+def metric_batch_family(draw):
+    """Metrics registered in several batches (constructor + set_metrics calls naming several variables), then lookups at
+    positions with and without a metric of their own."""
+    n = {"X": draw(st.integers(2, 3)), "Y": draw(st.integers(2, 3))}
+    positions = {"X": ["center", "left", "right", "outer"], "Y": ["center", "left"]}
+    dims, coords, gcoords = {}, {}, {}
+    for a in "XY":
+        gcoords[a] = {}
+        for p in positions[a]:
+            d = dtok(a, p)
+            dims[d] = gen.pos_len(n[a], p)
+            coords[d] = {"values": None, "attrs": {}}
+            gcoords[a][p] = d
+    vars_ = {}
+    pool = []
+    k = 0
+    for xp in positions["X"]:
+        for yp in [None] + positions["Y"]:
+            if draw(st.sampled_from([True, True, False])):
+                k += 1
+                dl = [dtok("X", xp)] + ([dtok("Y", yp)] if yp else [])
+                name = f"MX{k}"
+                vars_[name] = {"dims": dl, "values": draw(gen.data_values([dims[d] for d in dl], elements=st.integers(1, 40).map(lambda q: q / 8.0 + 5 * k)))}
+                pool.append(name)
+    if len(pool) < 3:
+        for xp in ("center", "left", "right"):
+            k += 1
+            name = f"MX{k}"
+            vars_[name] = {"dims": [dtok("X", xp)], "values": [1.0 + k + 0.25 * i for i in range(dims[dtok("X", xp)])]}
+            pool.append(name)
+    order = draw(st.permutations(pool))
+    first = list(order[:1])
+    rest = list(order[1:])
+    calls = []
+    # distinct dim sets only (same dim set twice would be a refusal, which is fine too but not the point here)
+    seen = {frozenset(vars_[first[0]]["dims"])}
+    batch = []
+    for v in rest:
+        fs = frozenset(vars_[v]["dims"])
+        if fs in seen:
+            continue
+        seen.add(fs)
+        batch.append(v)
+    cut = draw(st.integers(0, len(batch)))
+    for part in (batch[:cut], batch[cut:]):
+        if part:
+            calls.append({"fn": "set_metrics", "key": draw(st.sampled_from(["X", ["X"]])), "vars": part, "overwrite": draw(st.booleans())})
+    arrays = {}
+    for i, (xp, yp) in enumerate(draw(st.lists(st.tuples(st.sampled_from(positions["X"]), st.sampled_from(positions["Y"])), min_size=1, max_size=3, unique=True))):
+        dl = draw(gen.permutations_of([dtok("X", xp), dtok("Y", yp)]))
+        arrays[f"A{i}"] = {"dims": dl, "values": draw(gen.data_values([dims[d] for d in dl], elements=ints)), "name": None}
+        calls.append({"fn": "get_metric", "da": f"A{i}", "axes": ["X"], "axis_spelling": "tuple"})
+        calls.append({"fn": "integrate", "da": f"A{i}", "axis": ["X"]})
+    grid = {"coords": gcoords, "periodic": False, "metrics": [[["X"], first]], "boundary": "extend"}
+    return {"family": "metric-batches", "dims": dims, "coords": coords, "vars": vars_, "grid": grid, "arrays": arrays, "calls": calls}
+
+
 def any_family(max_calls=3):
     return st.one_of(simple_family(max_calls), simple_family(max_calls), faces_family(max_calls), ufunc_family(), equiv_family(),
-                     autoparse_family(), metric_partition_family(), transform_family())
+                     autoparse_family(), metric_partition_family(), metric_batch_family(), transform_family())
 
 
 def tokens_of(sc):
